@@ -1,7 +1,6 @@
 (* C05 - parameters are decoded as the inverse of OpenAPI style serialisation. *)
 From KV Require Import Model.Base Model.Json Model.Schema Model.Request Model.Lookup Model.ParamCodec
      Spec.ParamSpec Proofs.C05Proofs Proofs.C05Object.
-From KV Require Import Model.DeepObject Spec.DeepSpec Proofs.DeepProofs Proofs.DeepBuild.
 Local Open Scope list_scope.
 
 (* strings.Split inverts strings.Join for any separator and any non-empty list of elements that
@@ -128,6 +127,7 @@ Example C05_hyps_satisfiable :
   decode_param no_int no_int no_float p (ser p (SArr ["x"; "yy"; "z=1"])) = DRes (PA [PS "x"; PS "yy"; PS "z=1"]) true None.
 Proof. vm_compute. repeat split. Qed.
 
+From KV Require Import Model.DeepObject Spec.DeepSpec Proofs.ServerProofs Proofs.DeepProofs Proofs.DeepBuild Proofs.DeepSer Proofs.DeepKeys.
 (* ---- deepObject query parameters (Model/DeepObject.v; tied to the decoder by its own case stream) ---- *)
 (* after deepSet the path exists: it ends on the value just set, or on the nested object that was
    there before (the nested form wins); a path that parts at the first key is not disturbed *)
@@ -153,6 +153,40 @@ Theorem C05_deep_build_reads_value :
     build parse_int64 parse_int32 parse_float atoi root s mk key = BOk p.
 Proof. exact build_reading. Qed.
 Print Assumptions C05_deep_build_reads_value.
+(* deepSet over the serialisation of a value (in serialisation order) builds the parameter tree of
+   the value: for every well-formed value (no empty array or object below the top, member names
+   unique within an object) of any depth *)
+Theorem C05_deep_set_builds_tree : forall v, wfv v ->
+  match v with VPrim _ => True | _ => fold_set [] (ser [] v) = kids_of (tree_of v) end.
+Proof. exact fold_set_ser. Qed.
+(* the key name[k1][k2]... is parsed back into its path, for names without '[' and keys without ']' *)
+Theorem C05_deep_key_roundtrip : forall name path, no_byte "["%char name = true ->
+  Forall (fun k => no_byte "]"%char k = true) path -> key_path (name ++ render path)%string = path.
+Proof. exact key_path_render. Qed.
+(* the deepObject decoder inverts the deepObject serialisation: the query name[k1][k2]...=text of a
+   well-formed object value of any depth is decoded to the value read at the declared types,
+   without error (keys in serialisation order; see DESIGN.md for the order) *)
+Theorem C05_deep_object_roundtrip :
+  forall parse_int64 parse_int32 parse_float atoi,
+  (forall n, atoi (itoa n) = Some (Z.of_nat n)) ->
+  forall name s ms p,
+    no_byte "["%char name = true -> names_ok s = true ->
+    wfv (VObj ms) -> keys_ok (VObj ms) -> texts_ok (ser [] (VObj ms)) = true ->
+    reading parse_int64 parse_int32 parse_float s (VObj ms) = Some p ->
+    exists found, deep_decode parse_int64 parse_int32 parse_float atoi name s (query_of name (ser [] (VObj ms))) = DRes p found None.
+Proof. exact deep_decode_roundtrip. Qed.
+Print Assumptions C05_deep_object_roundtrip.
+(* the premises are satisfiable: a nested value with an array of objects *)
+Example C05_deep_roundtrip_hyps_satisfiable :
+  let i := DSPrim (prim_core (Some ["integer"]) "") in
+  let s := DSPrim (prim_core (Some ["string"]) "") in
+  let sch := DSObj [("o", DSObj [("x", i); ("y", DSArr i)] None); ("rows", DSArr (DSObj [("k", s)] None))] None in
+  let v := [("o", VObj [("x", VPrim "3"); ("y", VArr [VPrim "4"])]); ("rows", VArr [VObj [("k", VPrim "u")]; VObj [("k", VPrim "v")]])] in
+  let pint := fun t => if String.eqb t "3" then Some 3%Z else if String.eqb t "4" then Some 4%Z else None in
+  names_ok sch = true /\ texts_ok (ser [] (VObj v)) = true /\
+  reading pint pint (fun _ => None) sch (VObj v) = Some (PO [("o", PO [("x", PI64 3); ("y", PA [PI64 4])]); ("rows", PA [PO [("k", PS "u")]; PO [("k", PS "v")]])]) /\
+  query_of "f" (ser [] (VObj v)) = [("f[o][x]", ["3"]); ("f[o][y][0]", ["4"]); ("f[rows][0][k]", ["u"]); ("f[rows][1][k]", ["v"])].
+Proof. vm_compute. repeat split. Qed.
 (* a test, not a theorem: one nested value (object in object, array of objects) through the model *)
 Example C05_deep_example :
   let i := DSPrim (prim_core (Some ["integer"]) "") in
